@@ -427,7 +427,7 @@ def correspond(ctx, binaries, cases, keep=lambda l: True, model_domain='cl', wha
         for i in usable:
             stats['compared'] += 1
             a = vlib.filt(model[i], keep)
-            b = vlib.filt(impl.get(i, ['<missing>']), lambda l: keep(l) or l.startswith('CRASH') or l == 'HANG')
+            b = vlib.filt(impl.get(i, ['<missing>']), lambda l: keep(l) or l.startswith('CRASH') or l.startswith('HANG'))
             if a == b:
                 continue
             stats['disagreements'] += 1
@@ -442,13 +442,14 @@ def correspond(ctx, binaries, cases, keep=lambda l: True, model_domain='cl', wha
                 if 'error' in m:
                     return False
                 im = vlib.run_impl(binary, {'0': t}, ['0'], timeout=60).get('0', ['<missing>'])
-                return vlib.filt(m, keep) != vlib.filt(im, lambda l: keep(l) or l.startswith('CRASH') or l == 'HANG')
-            small = shrink(case, still)
+                return vlib.filt(m, keep) != vlib.filt(im, lambda l: keep(l) or l.startswith('CRASH') or l.startswith('HANG'))
+            hung = any(l.startswith('HANG') for l in impl.get(i, []))
+            small = shrink(case, still, max_tests=40 if hung else 400)
             t = case_text('0', small)
             m = vlib.run_model(model_domain, t).get('0', [])
             im = vlib.run_impl(binary, {'0': t}, ['0'], timeout=60).get('0', [])
             sp = vlib.run_model(spec_domain, t).get('0', []) if spec_domain else []
-            d = vlib.first_diff(vlib.filt(m, keep), vlib.filt(im, lambda l: keep(l) or l.startswith('CRASH') or l == 'HANG'))
+            d = vlib.first_diff(vlib.filt(m, keep), vlib.filt(im, lambda l: keep(l) or l.startswith('CRASH') or l.startswith('HANG')))
             replay = t + '# harness: %s\n# model   : %s\n# spec    : %s\n# impl    : %s\n' % (bname, ' | '.join(m), ' | '.join(sp), ' | '.join(im))
             ctx.violation(replay, '%s: implementation (%s) differs from the proved model at trace line %s: model `%s`, implementation `%s`' % (what, bname, d[0] if d else '?', d[1] if d else '?', d[2] if d else '?'))
     return stats, model, texts, usable
@@ -465,6 +466,6 @@ def replay_file(ctx, path, binaries, keep=lambda l: True, model_domain='cl'):
         for bname, binary in binaries.items():
             im = vlib.run_impl(binary, {str(k): t}, [str(k)], timeout=120).get(str(k), ['<missing>'])
             print('impl %s: %s' % (bname, ' | '.join(im)))
-            if 'error' not in m and vlib.filt(m, keep) != vlib.filt(im, lambda l: keep(l) or l.startswith('CRASH') or l == 'HANG'):
+            if 'error' not in m and vlib.filt(m, keep) != vlib.filt(im, lambda l: keep(l) or l.startswith('CRASH') or l.startswith('HANG')):
                 bad += 1
     return bad
